@@ -132,8 +132,35 @@ def mutation(prog, cls, attr):
                         continue
                     verdict = "maybe"                           # handed to something that might change it
                     continue
+                alias = None
                 if isinstance(par, (ast.Assign, ast.AnnAssign)) and getattr(par, "value", None) is n:
-                    verdict = "maybe"                           # a second name for the object
+                    t = par.targets[0] if isinstance(par, ast.Assign) and len(par.targets) == 1 else getattr(par, "target", None)
+                    alias = t.id if isinstance(t, ast.Name) else None
+                    if alias is None:
+                        verdict = "maybe"
+                elif isinstance(par, ast.Tuple) and isinstance(parents.get(par), ast.Assign) and parents[par].value is par and \
+                        len(parents[par].targets) == 1 and isinstance(parents[par].targets[0], ast.Tuple) and \
+                        len(parents[par].targets[0].elts) == len(par.elts):
+                    t = parents[par].targets[0].elts[par.elts.index(n)]
+                    alias = t.id if isinstance(t, ast.Name) else None
+                    if alias is None:
+                        verdict = "maybe"
+                if alias is not None:
+                    # a second name for the object: what is done through that name is done to the object
+                    for u in ast.walk(fn):
+                        if not (isinstance(u, ast.Name) and u.id == alias and isinstance(u.ctx, ast.Load)):
+                            continue
+                        up = parents.get(u)
+                        if isinstance(up, ast.Subscript) and up.value is u and isinstance(up.ctx, (ast.Store, ast.Del)):
+                            return "yes"
+                        if isinstance(up, ast.Subscript) and up.value is u and isinstance(parents.get(up), ast.AugAssign) and \
+                                parents[up].target is up:
+                            return "yes"
+                        if isinstance(up, ast.Attribute) and up.value is u and isinstance(parents.get(up), ast.Call) and \
+                                parents[up].func is up and up.attr not in READ_ONLY:
+                            return "yes"
+                        if isinstance(up, ast.Call) and u in up.args and _dotted(up.func) not in ("len", "list", "tuple", "sum", "max", "min", "sorted", "np.mean", "numpy.mean"):
+                            verdict = "maybe"
         # an object the constructor receives and keeps is changed by whoever else holds it: not this class's state
     return verdict
 
